@@ -115,6 +115,9 @@ VARIANTS = {
     'extra_builtins': ({'body': '<p>${zz|0}</p>'}, {'body': '<p>${zz|0}</p>', 'cfg': {'extra_builtins': {'zz': 1}}}),
     'extra_builtins-names-concatenate': ({'body': '<p>${ab|"-"};${c|"-"};${a|"-"};${bc|"-"}</p>', 'cfg': {'extra_builtins': {'ab': 'AB', 'c': 'C'}}},
                                          {'body': '<p>${ab|"-"};${c|"-"};${a|"-"};${bc|"-"}</p>', 'cfg': {'extra_builtins': {'a': 'A', 'bc': 'BC'}}}),
+    # the same names and values, the mapping filled in another order (two call sites; a mapping built from a set)
+    'extra_builtins-same-mapping-other-insertion-order': ({'body': '<p>${ka} - ${kb} - ${kc}</p>', 'cfg': {'extra_builtins': {'ka': 'A', 'kb': 'B', 'kc': 'C'}}},
+                                                          {'body': '<p>${ka} - ${kb} - ${kc}</p>', 'cfg': {'extra_builtins': {'kc': 'C', 'ka': 'A', 'kb': 'B'}}}),
     'extra_builtins-same-names-other-values': ({'body': '<p>${zz|0}</p>', 'cfg': {'extra_builtins': {'zz': 1}}},
                                                {'body': '<p>${zz|0}</p>', 'cfg': {'extra_builtins': {'zz': 2}}}),
     'boolean_attributes-unset-vs-empty': ({}, {'cfg': {'boolean_attributes': []}}),
